@@ -136,6 +136,7 @@ func (fr *frame) execInstr(in ssa.Instruction, st *State, reach string, b *ssa.B
 		fr.nilCheck(x.Addr, av, reach, x.Pos())
 		lv := fr.ptrLV(av, x.Addr.Type())
 		vv := fr.valOf(x.Val)
+		fr.storeSiteAsserts(x, st, reach)
 		if fr.pure {
 			if lv.kind == lvPure {
 				u.write(st, lv, fr.valTerm(vv, st))
@@ -827,7 +828,25 @@ func (fr *frame) modifiedIn(li *loopInfo) (names ModSet, all bool) {
 		for _, in := range b.Instrs {
 			switch x := in.(type) {
 			case *ssa.Store:
+				if root, fields, ok := fieldChain(x.Addr); ok && fr.definedOutside(root, li) {
+					// a field path of an object designated by a loop-invariant pointer: havoc exactly that location
+					li.precise = append(li.precise, preciseTarget{root: root, fields: fields})
+					continue
+				}
+				before := map[string]bool{}
+				for k := range names {
+					before[k] = true
+				}
 				fr.u.eng.storeTarget(x.Addr, fr, names)
+				// "fresh object" frames are only valid when the object is allocated inside the loop
+				if ra := rootAlloc(x.Addr); ra != nil && !li.body[ra.Block().Index] {
+					for k, t := range names {
+						if !before[k] && (strings.HasPrefix(k, "HF:") || strings.HasPrefix(k, "EF:")) {
+							delete(names, k)
+							names[k[:1]+k[2:]] = t
+						}
+					}
+				}
 			case *ssa.MapUpdate:
 				mt := x.Map.Type().Underlying().(*types.Map)
 				pn, _, vn, _ := fr.mapHeaps(mt)
@@ -1025,6 +1044,28 @@ func (fr *frame) enterLoop(li *loopInfo, st *State, reach string) *State {
 		u.abstract("loop-havoc-all")
 	}
 	fr.havocNames(mods, st, ns, "loop", reach)
+	seenPT := map[string]bool{}
+	for _, pt := range li.precise {
+		key := fmt.Sprintf("%p.%v", pt.root, pt.fields)
+		if seenPT[key] {
+			continue
+		}
+		seenPT[key] = true
+		pv := fr.valOf(pt.root)
+		lv := fr.ptrLV(pv, pt.root.Type())
+		cont := pt.root.Type().Underlying().(*types.Pointer).Elem()
+		for _, f := range pt.fields {
+			ft := cont.Underlying().(*types.Struct).Field(f).Type()
+			lv = lv.extendField(f, cont, ft)
+			cont = ft
+		}
+		if _, whole := ns.h[lv.name]; whole && ns.h[lv.name] != st.h[lv.name] {
+			continue // the whole heap was havocked anyway
+		}
+		nv := u.declare("loopfield", u.sorts.sortOf(cont))
+		fr.assumeWF(cont, nv, ns, reach)
+		u.write(ns, lv, nv)
+	}
 	na := u.declare("alloc@loop", "Int")
 	u.assume(reach, fmt.Sprintf("(>= %s %s)", na, st.alloc))
 	ns.alloc = na
@@ -1089,7 +1130,7 @@ func (fr *frame) havocNames(mods ModSet, st *State, ns *State, why, reach string
 	sort.Strings(mk)
 	done := map[string]bool{}
 	for _, k := range mk {
-		if k == "*" || strings.HasPrefix(k, "P:") || strings.HasPrefix(k, "PE:") {
+		if k == "*" || strings.HasPrefix(k, "P:") || strings.HasPrefix(k, "PE:") || strings.HasPrefix(k, "PF:") {
 			continue
 		}
 		real, fresh := k, false
@@ -1117,6 +1158,64 @@ func (fr *frame) havocNames(mods ModSet, st *State, ns *State, why, reach string
 		if fresh {
 			r := u.fresh("r")
 			u.assume("true", fmt.Sprintf("(forall ((%s Int)) (! (=> (< %s %s) (= (select %s %s) (select %s %s))) :pattern ((select %s %s))))", r, r, st.alloc, nv, r, old, r, nv, r))
+		}
+	}
+}
+
+
+type preciseTarget struct {
+	root   ssa.Value
+	fields []int
+}
+
+// fieldChain: addr = &root.f1.f2 (struct fields only, through one pointer) -> root pointer value, [f1 f2].
+func fieldChain(addr ssa.Value) (ssa.Value, []int, bool) {
+	var fields []int
+	cur := addr
+	for {
+		fa, ok := cur.(*ssa.FieldAddr)
+		if !ok {
+			break
+		}
+		fields = append([]int{fa.Field}, fields...)
+		cur = fa.X
+	}
+	if len(fields) == 0 {
+		return nil, nil, false
+	}
+	if _, ok := cur.Type().Underlying().(*types.Pointer); !ok {
+		return nil, nil, false
+	}
+	return cur, fields, true
+}
+
+func (fr *frame) definedOutside(v ssa.Value, li *loopInfo) bool {
+	switch x := v.(type) {
+	case *ssa.Parameter, *ssa.FreeVar, *ssa.Global, *ssa.Const:
+		return true
+	case ssa.Instruction:
+		if a, ok := v.(*ssa.Alloc); ok && !a.Heap {
+			return false // local cells are handled by name
+		}
+		return x.Block() != nil && !li.body[x.Block().Index]
+	}
+	return false
+}
+
+// rootAlloc returns the allocation instruction an address is rooted at, if any.
+func rootAlloc(addr ssa.Value) ssa.Instruction {
+	for {
+		switch x := addr.(type) {
+		case *ssa.FieldAddr:
+			addr = x.X
+		case *ssa.IndexAddr:
+			addr = x.X
+		case *ssa.Alloc:
+			return x
+		case *ssa.MakeSlice:
+			return x
+		default:
+			return nil
 		}
 	}
 }
